@@ -1,6 +1,6 @@
 """C09  Macro expansion follows C11 6.10.3 and terminates.
 
-Bounded-exhaustive enumeration (simplest first) of (macro definitions, invocation text) cases in six families:
+Bounded-exhaustive enumeration (simplest first) of (macro definitions, invocation text) cases in eight families:
 
   F1  # / ## bodies        every body of <= L tokens over {p q # ## x , 1} for object-like macros and function-like
                            macros with 0..2 parameters x every argument tuple over ARGS for the parameters the body uses
@@ -14,6 +14,22 @@ Bounded-exhaustive enumeration (simplest first) of (macro definitions, invocatio
                            macros producing ( ) , and a function-like macro's name
   F6  dynamic macros       sequences over __COUNTER__ __LINE__ __FILE__ __BASE_FILE__ direct, through object-like and
                            function-like macros, stringized, pasted, over several lines
+  F8  two-level # / ##     outer O(p,q) and O(p,...) whose body is IN ( e ) for every operand expression e of <= L
+                           tokens over {p q|__VA_ARGS__ # ## x} and every chain A ## B ## C over {p q|__VA_ARGS__ x}
+                           x inner macro IN that is the identity, stringizes, pastes on the left / right, or
+                           expands-then-stringizes (F8_INNERS)
+                           x argument grid (empty, identifier, object-like macro name with several / no tokens,
+                           invocation of another macro, several tokens, invocation of O itself, ...) for p and q:
+                           whether an argument was or was not macro-expanded before it was substituted is visible
+                           for every operand position of # and ##, including `placemarker ## q` and results of ##
+                           that name another macro (F8_HELPERS: aM xM kM Mx Ma aG xG kG Gx Ga ...)
+
+Name sets.  Hiding (6.10.3.4p2) depends on the identity of a macro name, not on resemblance: F2 is enumerated over
+six name sets (F2_NAMINGS: names differing in the first character only; each a proper prefix of the next: M M_ M_x;
+each a proper suffix of the next: M xM _xM; mixed; differing in the last character only: Ma Mb Mc; differing in the
+case of a letter only: M m) and F7 over its original names and four renamings (F7_RENAMINGS) that make I, N, F proper
+prefixes / suffixes of each other in both orders.  For the name sets other than the first, digraphs without an edge
+between two different names are skipped (the spelling of the names cannot matter there).
 
 Oracle (two-oracle rule): models/cpp.py (Prosser's hide-set algorithm + 6.10.3.1-6.10.3.5 placemarker semantics)
 AND `gcc -E -P`; a case is judged only where the model says the result is defined and gcc produces the same token
@@ -28,7 +44,7 @@ from vlib import core
 from models import cpp
 
 LEVEL = "exploration"
-BUDGET = {"quick": 300, "thorough": 1500}
+BUDGET = {"quick": 300, "thorough": 2400}    # deadlines, not expected times (a loaded machine is 3-5x slower)
 
 SHARD = 350                 # cases per packed file
 T_ALONE = 5                 # wall seconds for one alone run; the confirming re-run gets 10x as CPU time
@@ -36,7 +52,13 @@ T_PACKED = 20
 
 RULE = ("a case = (macro definitions, invocation text); non-trivial iff the reference model performs at least one "
         "macro replacement while expanding it and the standard defines the result; distinct = distinct "
-        "(definitions, invocation) text; judged iff model and gcc -E agree on the token sequence")
+        "(definitions, invocation) text; judged iff model and gcc -E agree on the token sequence.  Macro names of the "
+        "recursion digraphs (F2) and of the rescanning family (F7) are drawn from name sets whose members differ in the "
+        "first character only, are proper prefixes of each other (M M_ M_x), proper suffixes (M xM _xM), both, or "
+        "differ in the last character only or in letter case only (coverage key name_sets).  # / ## operands are enumerated directly (F1) and "
+        "in two-level compositions (F8: outer O(p,q) / O(p,...) = IN( e ) for every operand expression e of <= L tokens "
+        "over {p q|__VA_ARGS__ # ## x}, every chain A ## B ## C over {p q|__VA_ARGS__ x} and every inner macro IN in f8_inner_macros, over the argument grid "
+        "f8_arguments squared)")
 
 # ------------------------------------------------------------------------------------------------------------
 # enumerators.  Macro names carry '@', replaced by a per-case suffix when the case is rendered.
@@ -96,20 +118,48 @@ def gen_f1(tier):
                     yield ("F1", "F1/%s/%s/%s" % (sname, btxt, "|".join(combo)), with_helpers(defs, inv), inv)
 
 
-F2_BOUND = {"quick": (2, 3, 3), "thorough": (3, 3, 9)}    # (names fully, names, max edges for the largest size)
-F2_NAMES = ["A@", "B@", "C@"]
+# F2 name sets ("namings").  Hiding (6.10.3.4p2) is decided by the IDENTITY of a macro name, so the digraphs are
+# enumerated once over names that differ in their first character only and again over names that are proper
+# prefixes / proper suffixes / same-length-last-character variants of one another.  '@' is the per-case suffix.
+F2_NAMINGS = {
+    "distinct": ["A@", "B@", "C@"],          # same length, differ in the first character only
+    "prefix": ["M@", "M@_", "M@_x"],         # each name is a proper prefix of the next ones
+    "suffix": ["M@", "xM@", "_xM@"],         # each name is a proper suffix of the next ones
+    "mixed": ["M@", "M@_x", "xM@"],          # [0] is a prefix of [1] and a suffix of [2]; [1] and [2] share an infix
+    "lastchar": ["M@a", "M@b", "M@c"],       # same length, differ in the last character only
+    "case": ["M@", "m@", "Mm@"],             # [0] and [1] differ in the case of a letter only
+}
+# per tier and naming: (names fully, names, max edges for the largest size)
+F2_BOUND = {"quick": {"distinct": (2, 3, 3), "prefix": (2, 2, 4), "suffix": (2, 2, 4), "mixed": (2, 3, 2),
+                      "lastchar": (2, 2, 4), "case": (2, 2, 4)},
+            "thorough": {"distinct": (3, 3, 9), "prefix": (2, 3, 3), "suffix": (2, 3, 3), "mixed": (2, 3, 3),
+                         "lastchar": (2, 3, 3), "case": (2, 2, 4)}}
+F2_NAMING_ORDER = ["distinct", "prefix", "suffix", "mixed", "lastchar", "case"]
 
 
 def gen_f2(tier):
-    nfull, nmax, emax = F2_BOUND[tier]
-    for n in range(1, nmax + 1):
-        names = F2_NAMES[:n]
+    for naming in F2_NAMING_ORDER:
+        if naming not in F2_BOUND[tier]:
+            continue
+        for c in gen_f2_naming(tier, naming):
+            yield c
+
+
+def gen_f2_naming(tier, naming):
+    nfull, nmax, emax = F2_BOUND[tier][naming]
+    base = naming == "distinct"
+    for n in range(1 if base else 2, nmax + 1):
+        names = F2_NAMINGS[naming][:n]
+        if naming == "mixed" and n == 2:
+            continue      # identical to "prefix" on two names
         pairs = [(i, j) for i in range(n) for j in range(n)]
         for kinds in itertools.product("of", repeat=n):
             for ne in range(0, len(pairs) + 1):
                 if n > nfull and ne > emax:
                     break
                 for edges in itertools.combinations(pairs, ne):
+                    if not base and not any(i != j for i, j in edges):
+                        continue      # no reference between two different names: the spelling of the names is immaterial
                     has_fn_target = any(kinds[j] == "f" for _, j in edges)
                     for style in (("applied", "bare") if has_fn_target else ("applied",)):
                         defs = []
@@ -135,8 +185,9 @@ def gen_f2(tier):
                             if n > nfull:
                                 invs = invs[:3]
                             for inv in invs:
-                                cid = "F2/%s/%s/%s/%s" % ("".join(kinds), ",".join("%d%d" % e for e in edges), style,
-                                                          inv.replace("@", ""))
+                                cid = "F2/%s%s/%s/%s/%s" % ("" if base else naming + "/", "".join(kinds),
+                                                            ",".join("%d%d" % e for e in edges), style,
+                                                            inv.replace("@", ""))
                                 yield ("F2", cid, tuple(defs), inv)
 
 
@@ -308,13 +359,32 @@ F7_VARIANTS = {
           {"quick": 4, "thorough": 5}),
 }
 F7_BOUND = {t: dict((v, F7_VARIANTS[v][2][t]) for v in F7_VARIANTS) for t in ("quick", "thorough")}
+# Renamings of the three macro names that hide one another in F7 (I: identity, N: object-like producing F's name,
+# F: the function-like macro), so that the names are proper prefixes / suffixes of each other (cf. F2_NAMINGS).
+F7_RENAMINGS = {
+    "prefix": {"I@": "M@", "N@": "M@_", "F@": "M@_x"},       # I < N < F (each a proper prefix of the next)
+    "xiferp": {"F@": "M@", "N@": "M@_", "I@": "M@_x"},       # F < N < I
+    "suffix": {"I@": "M@", "N@": "xM@", "F@": "_xM@"},       # I < N < F (each a proper suffix of the next)
+    "xiffus": {"F@": "M@", "N@": "xM@", "I@": "_xM@"},       # F < N < I
+}
+# (variant, renaming) -> max tokens
+F7_RENAMED_BOUND = {"quick": {("a", "prefix"): 4, ("a", "xiferp"): 4, ("a", "suffix"): 4, ("a", "xiffus"): 4},
+                    "thorough": {("a", "prefix"): 5, ("a", "xiferp"): 5, ("a", "suffix"): 5, ("a", "xiffus"): 5,
+                                 ("b", "prefix"): 4, ("b", "xiferp"): 4, ("b", "suffix"): 4, ("b", "xiffus"): 4}}
+_F7_NAME_RE = re.compile(r"[A-Z]+@")
 
 
 def gen_f7(tier):
     """Rescanning: parentheses, commas and function-like names that are themselves produced by macros."""
-    for v in sorted(F7_VARIANTS):
-        alpha, defs, bound = F7_VARIANTS[v]
-        for L in range(2, bound[tier] + 1):
+    todo = [(v, None, F7_VARIANTS[v][2][tier]) for v in sorted(F7_VARIANTS)]
+    todo += [(v, rn, b) for (v, rn), b in sorted(F7_RENAMED_BOUND[tier].items())]
+    for v, rn, bound in todo:
+        alpha, defs, _ = F7_VARIANTS[v]
+        ren = F7_RENAMINGS[rn] if rn else {}
+
+        def actual(text):
+            return _F7_NAME_RE.sub(lambda m: ren.get(m.group(), m.group()), text)
+        for L in range(2, bound + 1):
             for t in itertools.product(alpha, repeat=L):
                 if not any(x in ("I@", "F@", "N@") for x in t):
                     continue
@@ -322,13 +392,98 @@ def gen_f7(tier):
                     continue
                 if t[-1] in ("(", "LP@", ",", "CM@") and L > 2:
                     continue      # always unterminated or trivially trailing
+                if rn and sum(1 for x in set(t) if x in ("I@", "F@", "N@")) < 2 and "N@" not in t:
+                    continue      # fewer than two of the related names involved: same as the unrenamed case
                 need = sorted(k for k in defs if k in t)
                 if "N@" in need and "F@" not in need:
                     need.append("F@")
-                yield ("F7", "F7/%s/%s" % (v, " ".join(t).replace("@", "")), tuple(defs[k] for k in need), " ".join(t))
+                cid = "F7/%s%s/%s" % (v, "-" + rn if rn else "", " ".join(t).replace("@", ""))
+                yield ("F7", cid, tuple(actual(defs[k]) for k in need), actual(" ".join(t)))
 
 
-GENERATORS = [("F7", gen_f7), ("F5", gen_f5), ("F6", gen_f6), ("F2", gen_f2), ("F4", gen_f4), ("F3", gen_f3), ("F1", gen_f1)]
+# F8: two-level compositions.  The outer macro O hands an operand expression e (every body of <= L tokens over
+# {p q|V # ## x}, and every chain `A ## B ## C` over {p q|V x}) to an inner macro IN that is the identity, stringizes, or pastes, so that the token sequence that
+# the outer substitution produced for e - in particular whether each argument had or had not been macro-expanded
+# when it was substituted as an operand of # / ## or as an ordinary parameter - is observable in the result.
+F8_ALPHA = ["p", "q", "#", "##", "x"]
+F8_BOUND = {"quick": 3, "thorough": 4}
+# inner macro: (replacement list for a one-parameter inner `z`, for a variadic inner)
+F8_INNERS = {"quick": ["id", "str", "lpaste"], "thorough": ["id", "str", "lpaste", "rpaste", "xstr"]}
+F8_INNER_DEFS = {
+    "id": ("z", "__VA_ARGS__"),
+    "str": ("# z", "# __VA_ARGS__"),
+    "lpaste": ("k ## z", "k ## __VA_ARGS__"),
+    "rpaste": ("z ## k", "__VA_ARGS__ ## k"),
+    "xstr": ("S@ ( z )", "SV@ ( __VA_ARGS__ )"),      # expand, then stringize
+}
+# arguments: empty, plain, object-like macro name (several / no tokens), invocation of another macro, several tokens
+# ending in a macro name, an invocation of the outer macro itself; the thorough tier adds a function-like macro's bare
+# name, nested parentheses with a comma, a string literal, a number and an invocation whose argument is a macro name
+F8_ARGS = {"quick": ["", "a", "M@", "E@", "G@ ( a )", "a M@", "O@ ( a , a )"],
+           "thorough": ["", "a", "M@", "E@", "G@ ( a )", "a M@", "O@ ( a , a )", "G@", "( a , M@ )", '"s"', "1",
+                        "G@ ( M@ )", "M@ a", "O@"]}
+F8_ARGS_REDUCED = ["", "a", "M@", "G@ ( a )", "O@ ( a , a )"]        # bodies of the largest size and ## chains
+F8_VA_EXTRA = ["a , M@", "M@ , a", None]                                # variable argument only (None: omitted)
+# helper macros: the argument macros M E G, and macros that a pasted result can name
+# (<body token x / k or argument a> ## <macro name> and <macro name> ## <x / a>; their names extend the names of
+# M and G at either end, and their replacement lists mention the shorter name again)
+F8_HELPERS = [("M@", "#define M@ m 2"), ("E@", "#define E@"), ("G@", "#define G@(z) < z >"),
+              ("M@", "#define aM@ am M@"), ("M@", "#define xM@ xm M@"), ("M@", "#define kM@ km M@"),
+              ("M@", "#define M@x mx M@"), ("M@", "#define M@a ma M@"),
+              ("G@", "#define aG@(z) ag z G@"), ("G@", "#define xG@(z) xg z"), ("G@", "#define kG@(z) kg z"),
+              ("G@", "#define G@x(z) gx z G@"), ("G@", "#define G@a(z) ga z"),
+              ("O@ ,", "#define O@a oa O@"), ("O@ ,", "#define O@x ox"), (", O@ )", "#define aO@ ao O@"),
+              (", O@ )", "#define xO@ xo"), ("O@ )", "#define kO@ ko")]
+
+
+def f8_bodies(maxlen, second):
+    """Operand expressions: token sequences over F8_ALPHA that are valid replacement-list fragments."""
+    for L in range(1, maxlen + 1):
+        for body in itertools.product(F8_ALPHA, repeat=L):
+            if not f1_body_ok(body, ("p", "q"), True):
+                continue
+            if second:
+                if "q" not in body:
+                    continue      # variadic outer: expressions without __VA_ARGS__ are covered by the (p,q) outer
+            elif "p" not in body:
+                continue          # (p,q) outer: expressions with q alone mirror those with p alone
+            yield body
+    # every chain of two ## over {p q x} (five tokens): first, middle and last operand positions
+    if maxlen < 5:
+        for ops in itertools.product("pqx", repeat=3):
+            if ("q" if second else "p") in ops:
+                yield (ops[0], "##", ops[1], "##", ops[2])
+
+
+def gen_f8(tier):
+    maxlen = F8_BOUND[tier]
+    for shape in ("pq", "pv"):
+        variadic = shape == "pv"
+        for body in f8_bodies(maxlen, variadic):
+            grid = F8_ARGS[tier] if len(body) < (4 if tier == "quick" else maxlen) else F8_ARGS_REDUCED
+            pgrid = grid if "p" in body else ["a"]
+            qgrid = (grid + F8_VA_EXTRA if variadic else grid) if "q" in body else ["a"]
+            etxt = " ".join("__VA_ARGS__" if (t == "q" and variadic) else t for t in body)
+            for inner in F8_INNERS[tier]:
+                idef = "#define IN@(%s) %s" % ("..." if variadic else "z", F8_INNER_DEFS[inner][1 if variadic else 0])
+                odef = "#define O@(p,%s) IN@ ( %s )" % ("..." if variadic else "q", etxt)
+                for pa in pgrid:
+                    for qa in qgrid:
+                        if qa is None:
+                            inv = "O@ ( %s )" % pa
+                        else:
+                            inv = "O@ ( %s , %s )" % (pa, qa)
+                        inv = re.sub(r"  +", " ", inv)
+                        defs = [idef, odef]
+                        if inner == "xstr":
+                            defs.append("#define SV@(...) # __VA_ARGS__" if variadic else "#define S@(z) # z")
+                        defs.extend(d for trigger, d in F8_HELPERS if trigger in inv)
+                        cid = "F8/%s/%s/%s/%s|%s" % (shape, inner, " ".join(body), pa.replace("@", ""),
+                                                     "-" if qa is None else qa.replace("@", ""))
+                        yield ("F8", cid, tuple(defs), inv)
+
+
+GENERATORS = [("F8", gen_f8), ("F7", gen_f7), ("F5", gen_f5), ("F6", gen_f6), ("F2", gen_f2), ("F4", gen_f4), ("F3", gen_f3), ("F1", gen_f1)]
 
 # ------------------------------------------------------------------------------------------------------------
 # rendering and running
@@ -914,7 +1069,11 @@ def run(ctx):
               cases_per_family=fam_counts, per_family=per_fam, features_exercised=feats,
               oracle_disagreement_samples=dis[:6],
               bounds_completed={"F1": F1_BOUND[tier], "F2": F2_BOUND[tier], "F3": F3_BOUND[tier], "F4": F4_BOUND[tier],
-                                "F6": F6_BOUND[tier], "F7": F7_BOUND[tier]} if not unfinished else "partial")
+                                "F6": F6_BOUND[tier], "F7": F7_BOUND[tier],
+                                "F7-renamed": dict(("%s-%s" % k, v) for k, v in F7_RENAMED_BOUND[tier].items()),
+                                "F8": F8_BOUND[tier]} if not unfinished else "partial",
+              name_sets={"F2": dict((k, F2_NAMINGS[k]) for k in F2_BOUND[tier]), "F7": F7_RENAMINGS},
+              f8_inner_macros=dict((k, F8_INNER_DEFS[k]) for k in F8_INNERS[tier]), f8_arguments=F8_ARGS[tier])
     ctx.assume("gcc 12 -std=gnu17 -E -P is the second oracle; cases where it and the model differ are not judged")
     ctx.assume("token alphabets and bounds per family as in the module docstring and *_BOUND tables")
     ctx.assume("__VA_OPT__ follows C2x (present iff the variable argument expands to at least one token); "
@@ -925,7 +1084,14 @@ def run(ctx):
             raise core.HarnessError("vacuous: judged=%d of %d, nontrivial=%d" % (tot["judged"], tot["cases"], len(hashes)))
         need = ["paste-tokens", "paste-placemarker", "stringize", "hideset-blocked", "va-opt", "gnu-comma-paste",
                 "empty-expansion", "invocation-spans-lines", "funclike-unapplied", "argument-pre-expanded",
-                "builtin:__COUNTER__", "builtin:__LINE__"]
+                "builtin:__COUNTER__", "builtin:__LINE__",
+                # macro names that resemble a name in their hide set without being it (F2 namings, F7 renamings)
+                "not-hidden-by-similar-name:prefix", "not-hidden-by-similar-name:suffix",
+                "not-hidden-by-similar-name:last-char", "not-hidden-by-similar-name:case",
+                # operands of # and ## that name macros, with and without a placemarker on the other side (F8)
+                "paste-operand-contains-macro-name", "stringize-operand-contains-macro-name",
+                "paste-placemarker-left-of-macro-name", "paste-placemarker-right-of-macro-name",
+                "invocation-formed-during-rescan"]
         missing = [f for f in need if not feats.get(f)]
         if missing:
             raise core.HarnessError("vacuous: mechanisms never exercised by a judged case: %s" % missing)
